@@ -1660,29 +1660,25 @@ impl Fsm {
             let mut toFinalize: Vec<ExecutableContentId> = Vec::new();
             let mut toForward: Vec<InvokeId> = Vec::new();
             {
-                match externalEvent.invoke_id {
-                    None => {}
-                    Some(ref invokeId) => {
-                        match get_global!(datamodel).child_sessions.get(invokeId) {
-                            None => {}
-                            Some(session) => {
-                                // Get state of invokeid
-                                if let Some(state_id) = session.state_id {
-                                    let invoke_doc_id = session.invoke_doc_id;
-                                    let state = self.get_state_by_id(state_id);
-                                    for inv in state.invoke.iterator() {
-                                        if inv.doc_id == invoke_doc_id {
-                                            toFinalize.push(inv.finalize);
-                                        }
-                                        if inv.autoforward {
-                                            toForward.push(invokeId.clone());
-                                        }
+                for (invokeId, session) in &get_global!(datamodel).child_sessions {
+                    // Get state of invokeid
+                    if let Some(state_id) = session.state_id {
+                        let invoke_doc_id = session.invoke_doc_id;
+                        let state = self.get_state_by_id(state_id);
+                        for inv in state.invoke.iterator() {
+                            if inv.doc_id == invoke_doc_id {
+                                if let Some(sender_id) = &externalEvent.invoke_id {
+                                    if sender_id.eq(invokeId) {
+                                        toFinalize.push(inv.finalize);
                                     }
+                                }
+                                if inv.autoforward {
+                                    toForward.push(invokeId.clone());
                                 }
                             }
                         }
                     }
-                };
+                }
             }
             datamodel.set_event(&externalEvent);
             for finalizeContentId in toFinalize {
